@@ -39,8 +39,24 @@ func c04Decode(T int32, bm []uint64) []uint64 {
 	if !c04DecOK(T) {
 		panic("out of the correspondence domain")
 	}
+	// A bitmap is decoded more than once in its life, and with more than one level mask: before the
+	// observed call the SAME slice is decoded with the full-tree masks of smaller heights and with T
+	// itself (results dropped).  Decode only reads its argument, so this changes nothing on a tree where
+	// the property holds; a callee that trims, normalises or caches through the caller's slice shows up
+	// in the observed call.  (One case in three keeps the single cold call.)
+	c04DecTick++
+	if c04DecTick%3 != 0 {
+		for h := uint(0); h <= 6 && int32(1)<<(h+1)-1 <= T; h++ {
+			bmtree.Decode(int32(1)<<(h+1)-1, bm)
+		}
+		if c04DecTick%3 == 2 {
+			bmtree.Decode(T, bm)
+		}
+	}
 	return bmtree.Decode(T, bm)
 }
+
+var c04DecTick int
 
 func init() {
 	Exec["bmtree.AllPaths"] = func(a []V) string {
